@@ -255,6 +255,68 @@ func genLookalike(t *rapid.T) Case {
 	return Case{F: f}
 }
 
+// genJoinColliding: two exactly-one groups of the same width (5..7) over *different* name lists that give the same
+// string when joined with "-" ("a-b","c",... against "a","b-c",...: a name may contain any character). Anything that
+// identifies a group by its joined names confuses the two.
+func genJoinColliding(t *rapid.T) Case {
+	atoms := []string{"a", "b", "c", "d", "e", "f", "g", "h"}
+	k := gen.Uniform(t, 5, 7, "width")
+	sep := rapid.SampledFrom([]string{"-", "-", "-", ", ", "_"}).Draw(t, "sep")
+	merged := func(at int) []string {
+		var ns []string
+		for i := 0; i <= k; i++ {
+			if i == at {
+				ns = append(ns, atoms[i]+sep+atoms[i+1])
+				i++
+			} else {
+				ns = append(ns, atoms[i])
+			}
+		}
+		return ns
+	}
+	i := gen.Uniform(t, 0, k-1, "mergeAt1")
+	j := gen.Uniform(t, 0, k-2, "mergeAt2")
+	if j >= i {
+		j++
+	}
+	n1, n2 := merged(i), merged(j)
+	group := func(ns []string) *oracle.F {
+		g := &oracle.F{Op: "unique"}
+		for _, n := range ns {
+			g.Kids = append(g.Kids, oracle.V(n))
+		}
+		return g
+	}
+	g1, g2 := group(n1), group(n2)
+	not := func(f *oracle.F) *oracle.F { return &oracle.F{Op: "not", Kids: []*oracle.F{f}} }
+	pick := func(ns []string, label string) *oracle.F {
+		v := oracle.V(ns[gen.Uniform(t, 0, len(ns)-1, label)])
+		if gen.Chance(t, 1, 5, label+"Neg") {
+			return not(v)
+		}
+		return v
+	}
+	var kids []*oracle.F
+	switch rapid.IntRange(0, 3).Draw(t, "frame") {
+	case 0:
+		kids = []*oracle.F{g1, g2}
+	case 1:
+		kids = []*oracle.F{g2, g1}
+	case 2:
+		kids = []*oracle.F{{Op: "or", Kids: []*oracle.F{g1, oracle.V("p")}}, {Op: "or", Kids: []*oracle.F{g2, oracle.V("q")}}, not(oracle.V("p")), not(oracle.V("q"))}
+	default:
+		kids = []*oracle.F{{Op: "eq", Kids: []*oracle.F{g1, g2}}, {Op: "or", Kids: []*oracle.F{g1, g2}}}
+	}
+	for n, m := 0, gen.Uniform(t, 0, 3, "aims"); n < m; n++ {
+		if rapid.Bool().Draw(t, "from1") {
+			kids = append(kids, pick(n1, "m1"))
+		} else {
+			kids = append(kids, pick(n2, "m2"))
+		}
+	}
+	return Case{F: &oracle.F{Op: "and", Kids: kids}}
+}
+
 // WideCase: a formula with exactly-one groups of 10..40 names. All but a dozen of its names are fixed by literals
 // conjoined at top level, so that satisfiability is decided by enumerating the free names only.
 type WideCase struct {
@@ -402,6 +464,12 @@ func checkWide(c WideCase, o *vf.Obs) error {
 func init() {
 	vf.Register(vf.Sub[Case]{Name: "lookalike-names", Quick: 5000, Thorough: 60000, Gen: genLookalike, Check: check, Floor: 0.5,
 		Rule: "a small and/or/not formula and a twin in which one piece is replaced by a single variable whose name is that piece's printed form (\"a, b\", \"not(a)\", \"and(a, b)\": legal names for bf.Var), put side by side under disjunctions, conjunctions, xor or implications with guard variables; <= 10 names; same oracle as trees"})
+}
+
+func init() {
+	vf.Register(vf.Sub[Case]{Name: "join-colliding-groups", Quick: 4000, Thorough: 40000, Gen: genJoinColliding, Check: check, Floor: 0.9,
+		Classes: map[string]float64{"unsat": 0.1},
+		Rule:    "two exactly-one groups of 5..7 names whose name lists differ but give the same string when joined with \"-\" (\"a-b\",\"c\",.. against \"a\",\"b-c\",..), conjoined, under guarded disjunctions or under an equivalence, with 0..3 literals on members that aim at single models; <= 12 names; same oracle as trees"})
 }
 
 func init() {
